@@ -131,7 +131,12 @@ ReadMissing ==
                              ELSE IF k \in KVTypes THEN [py |-> "dict", type |-> k, items |-> <<>>]   \* empty METADATA ... END
                              ELSE [py |-> "dict", type |-> "", items |-> <<>>]>>))))
 
-Edit == done /\ nedits < MaxEdits /\ (SetAttr \/ DelKey \/ AddChild \/ RemoveChild \/ ReorderChildren \/ ReadMissing)
+\* d[p]["__verif__"] = value : keys of the form __name__ are never printed
+SetHidden ==
+    \E p \in Pick(BlockPaths(cur)) :
+      Commit([k |-> "sethidden", path |-> p, key |-> "__verif__"], cur)
+
+Edit == done /\ nedits < MaxEdits /\ (SetHidden \/ SetAttr \/ DelKey \/ AddChild \/ RemoveChild \/ ReorderChildren \/ ReadMissing)
 
 EFinish ==
     /\ ~done
